@@ -843,7 +843,12 @@ fn main() {
         for j in 0..nslices {
             let mut idx: Vec<usize> = (0..64).collect();
             rng.shuffle(&mut idx);
-            for &i in idx.iter().take(32 + rng.below(20) as usize) { feed.push((j, i)); }
+            // every second case the slice the conflict is about receives exactly the 32 shreds that reconstruct it: no
+            // genuine shred of it arrives between its reconstruction and the conflicting shred (the equivocation record
+            // must survive reconstruction on its own)
+            let extra = rng.below(20) as usize;
+            let extra = if c % 2 == 0 && j == target { 0 } else { extra };
+            for &i in idx.iter().take(32 + extra) { feed.push((j, i)); }
         }
         rng.shuffle(&mut feed);
         // per slice one victim: the lowest-index shred of the feed that is not the first of its slice to arrive. Just
